@@ -9,6 +9,7 @@ import (
 	"fmt"
 	"sort"
 	"strings"
+	"sync"
 
 	"pgregory.net/rapid"
 )
@@ -426,7 +427,102 @@ func c02Gen(t *rapid.T) c02Case {
 	return c
 }
 
+// C02/concurrent-callers — the verdicts do not depend on who else is signing or verifying at the same
+// moment. Several goroutines (real ones) each sign and verify their own object, and verify a tampered
+// copy, in a loop; every verdict and every signed text must be what the same calls give one at a
+// time. A correct tree cannot fail this whatever the schedule; a tree that shares scratch state between
+// calls fails it with high probability per case (and certainly under the race detector, C19's job).
+type c02ConcCase struct {
+	Objs   []vfBytes   `json:"objs"`
+	Signer []c02Signer `json:"signers"`
+	Rounds int         `json:"rounds"`
+}
+
+func c02ConcGen(t *rapid.T) c02ConcCase {
+	var c c02ConcCase
+	n := rapid.IntRange(3, 8).Draw(t, "goroutines")
+	o := jgenOpts{MaxDepth: 3, MaxWidth: 4, IntsOnly: true}
+	for i := 0; i < n; i++ {
+		v := jgenObject(t, o, 0, "obj").without("signatures", "unsigned").with("who", jnum(int64(i))).with("pad", jstr(strings.Repeat("x", rapid.IntRange(0, 300).Draw(t, "pad"))))
+		c.Objs = append(c.Objs, vfBytes(jspell(t, v, "p")))
+		c.Signer = append(c.Signer, c02GenSigner(t, "signer"))
+	}
+	c.Rounds = rapid.IntRange(20, 60).Draw(t, "rounds")
+	return c
+}
+
+func c02ConcCheck(ctx *vfCtx, c c02ConcCase) {
+	type want struct {
+		signed   string
+		tampered []byte
+	}
+	wants := make([]want, len(c.Objs))
+	for i, raw := range c.Objs {
+		v, fl, err := jparse(raw)
+		if err != nil || v.K != 'o' || fl.DupKeys || fl.LoneSurrogate {
+			ctx.Unjudged("generator produced a non-object / out-of-domain text")
+			return
+		}
+		_, priv := vfKeyFor(c.Signer[i].Key)
+		var signed []byte
+		if vfCatch(ctx, "C02/conc", func() {
+			signed, err = SignJSON(c.Signer[i].Name, KeyID(c.Signer[i].KeyID), priv, append([]byte(nil), raw...))
+		}) {
+			return
+		}
+		if err != nil {
+			ctx.Unjudged("sequential signing failed (C02/sign-verify's business)")
+			return
+		}
+		vs, _, _ := jparse(signed)
+		wants[i] = want{signed: string(signed), tampered: []byte(jplain(vs.with("who", jnum(int64(i+1000)))))}
+	}
+	ctx.NonTrivial()
+	ctx.Class(fmt.Sprintf("goroutines=%d", len(c.Objs)))
+	errs := make([]string, len(c.Objs))
+	var wg sync.WaitGroup
+	start := make(chan struct{})
+	for i := range c.Objs {
+		i := i
+		wg.Add(1)
+		go func() {
+			defer wg.Done()
+			defer func() {
+				if r := recover(); r != nil {
+					errs[i] = fmt.Sprintf("panic: %v", r)
+				}
+			}()
+			pub, priv := vfKeyFor(c.Signer[i].Key)
+			name, keyID := c.Signer[i].Name, KeyID(c.Signer[i].KeyID)
+			<-start
+			for r := 0; r < c.Rounds && errs[i] == ""; r++ {
+				signed, err := SignJSON(name, keyID, priv, append([]byte(nil), c.Objs[i]...))
+				switch {
+				case err != nil:
+					errs[i] = fmt.Sprintf("round %d: SignJSON fails next to other callers: %v", r, err)
+				case string(signed) != wants[i].signed:
+					errs[i] = fmt.Sprintf("round %d: SignJSON returns %q next to other callers, %q on its own", r, signed, wants[i].signed)
+				case VerifyJSON(name, keyID, pub, append([]byte(nil), signed...)) != nil:
+					errs[i] = fmt.Sprintf("round %d: the correctly signed object is rejected next to other callers", r)
+				case VerifyJSON(name, keyID, pub, append([]byte(nil), wants[i].tampered...)) == nil:
+					errs[i] = fmt.Sprintf("round %d: the object with a changed member verifies next to other callers", r)
+				}
+			}
+		}()
+	}
+	close(start)
+	wg.Wait()
+	for i, e := range errs {
+		if e != "" {
+			ctx.Fail("C02/verdict-depends-on-concurrent-callers", "goroutine %d of %d: %s", i, len(c.Objs), e)
+			return
+		}
+	}
+}
+
 func init() {
+	vfRapid("C02/concurrent-callers", "every case: 3..8 goroutines sign, verify and verify a tampered copy of their own object 20..60 times at the same time; distinct = distinct Case JSON",
+		40, 400, 4, c02ConcGen, c02ConcCheck)
 	vfRapid("C02/sign-verify",
 		"non-trivial = the object has >= 2 members besides signatures/unsigned and the step applied is a value-changing single-member mutation or a re-serialisation that changes at least one byte; distinct = distinct Case JSON",
 		2000, 200000, 16, c02Gen, c02Check)
